@@ -19,6 +19,18 @@ CLAIMS = {
    technique="runtime monitoring: reference redaction tables (per room-version algorithm) compared with RedactEventJSON / PDU.Redact output on generated events of every protected type x every registered version; idempotence, identity fields, event ID and signature validity monitored",
    text="For every registered room version and every protected / ordinary event type, raw-assembled events carrying every keep-list key of every version plus random extras are redacted by the real code and compared (as JSON values) with a table-driven reference; built events are redacted through PDU.Redact and monitored for unchanged type/sender/room/state key/event ID (re-parsed, v3+), idempotence and surviving signatures (independent ed25519 check). Sampled per (version,type) cell; every cell is visited.",
    note=TB + "content numbers limited to float64-exact values; abstains on v11+ member third_party_invite.signed."),
+ "C03": dict(level="exploration", design="§4 C03",
+   technique="runtime monitoring: accessor-tuple comparison across untrusted/trusted/headered re-parses of EventBuilder.Build output, reference event-ID oracle (sha256 over reference redaction), metamorphic ID invariance under unsigned/signature edits and ID sensitivity on single-field proto variants, all registered versions",
+   text="Every generated proto-event is built by the real builder for each registered room version; monitors compare the accessor tuple after each of the three re-parses and after Sign/SetUnsigned, run CheckFields, compare the event ID with an independent reference hash in the version's alphabet, assert ID invariance under 8 unsigned/signature edits and redaction (always re-parsing so a cached ID cannot mask a change), ID sensitivity on 9 single-field variants, and the v12 room-ID / first-auth-event rules. Sampled protos; every version visited on every proto.",
+   note=TB + "integer-only contents."),
+ "C04": dict(level="exploration", design="§4 C04",
+   technique="runtime monitoring: 16 tamperings of built events parsed with NewEventFromUntrustedJSON; reference content-hash classifies each case, reference redaction bounds what any accessor / JSON / headered JSON may expose; ID and signature validity compared with the original",
+   text="For each built event and registered version, 16 tamperings (redactable content changed/added/removed, extra top-level key, redacts/origin changed, protected keys changed, hash replaced/removed/mistyped/truncated, receipt-stripped keys added or changed, none) are parsed by the real untrusted parser; an independent content hash decides which side of the property applies, and the monitors compare JSON(), Content(), Unsigned(), Redacts(), ToHeaderedJSON() with the reference redaction, the redacted flag, and (for redactable-only tampering) event ID and signature validity with the original.",
+   note=TB + "integer-only contents."),
+ "C06": dict(level="exploration", design="§4 C06",
+   technique="runtime monitoring: VerifyEventSignatures driven over enumerated (version, event kind, role assignment, per-signer fault) cases with a recording verifier around a real KeyRing; monitors compare the set of servers asked, the timestamp asked and the verdict with an independent conjunction over required signers",
+   text="All 15 non-pseudo-ID versions x 10 event kinds x role assignments (sender / event-ID server / invitee / authoriser drawn from 4 servers, coincidences included) x all-good, every single fault on a required signer (9 signer states) and random multi-fault vectors x 0-2 unrelated signatures. The recording verifier shows which servers the library asked about and at which timestamp; the verdict is compared with the conjunction computed from the fault vector, itself cross-checked by an independent ed25519 verification.",
+   note=TB + "KeyRing with database only (fetcher interplay is C12); pseudo-ID version (mxid_mapping self-signatures) not driven."),
 }
 NOT_YET = "check not built yet (work in progress; see DESIGN.md §4 for the planned monitor)"
 
